@@ -69,6 +69,10 @@ pub struct MirrorCase {
     /// data the scripted stream serves (reads) — text-ish so that read_to_string can succeed
     pub data: Vec<u8>,
     pub drive: Drive,
+    /// the mock is built with `Unimock::new_partial` (unmocked provided methods must still run
+    /// the upstream body: the bundled mirrors register no unmock function)
+    #[serde(default)]
+    pub partial: bool,
 }
 
 /// Script state shared by the mock's answer functions and by the plain struct.
@@ -339,7 +343,7 @@ fn all<F: MockFn>() -> impl Fn(&mut unimock::private::Matching<F>) {
     |m| m.func(|_, _| true)
 }
 
-pub fn mock_for(s: &Shared, max_duty: u16) -> Unimock {
+pub fn mock_for(s: &Shared, max_duty: u16, partial: bool) -> Unimock {
     let mut dc = DynClause::new();
     let (a, b, c, d, e, f, g, h) = (s.clone(), s.clone(), s.clone(), s.clone(), s.clone(), s.clone(), s.clone(), s.clone());
     dc.push(WriteMock::write.each_call(&all()).answers_arc(Arc::new(move |_, buf| a.lock().unwrap().write_step(buf))));
@@ -402,7 +406,11 @@ pub fn mock_for(s: &Shared, max_duty: u16) -> Unimock {
         b.lock().unwrap().log.push(format!("set_duty_cycle({duty})"));
         Ok(())
     })));
-    Unimock::new(dc).no_verify_in_drop()
+    if partial {
+        Unimock::new_partial(dc).no_verify_in_drop()
+    } else {
+        Unimock::new(dc).no_verify_in_drop()
+    }
 }
 
 fn fill_answer(s: Shared) -> Arc<dyn for<'u> Fn(&'u mut Unimock) -> std::io::Result<&'u [u8]> + Send + Sync> {
@@ -492,7 +500,7 @@ fn run_mock(c: &MirrorCase) -> (String, Vec<String>) {
         Drive::Pwm(_, m, _) => *m,
         _ => 100,
     };
-    let mut u = mock_for(&s, max_duty);
+    let mut u = mock_for(&s, max_duty, c.partial);
     let out = match &c.drive {
         d @ (Drive::WriteAll(_) | Drive::WriteFmt(..) | Drive::WriteVectored(_) | Drive::ReadExact(_) | Drive::ReadToEnd | Drive::ReadToString
         | Drive::ReadVectored(_) | Drive::ReadLine | Drive::ReadUntil(_) | Drive::SeekRewind | Drive::SeekStreamPosition) => {
@@ -700,7 +708,7 @@ pub fn check(c: &MirrorCase) -> Result<CaseInfo, String> {
         Drive::SpiTransferInPlace(_) => "SpiDevice::transfer_in_place",
         Drive::Pwm(..) => "SetDutyCycle::set_duty_cycle_*",
     };
-    Ok(CaseInfo::new(short || plain.1.len() >= 2).class(name).class_if(short, "short-transfer-or-error-in-script"))
+    Ok(CaseInfo::new(short || plain.1.len() >= 2).class(name).class_if(short, "short-transfer-or-error-in-script").class_if(c.partial, "partial-mock"))
 }
 
 fn step_strategy() -> impl Strategy<Value = Step> {
@@ -743,14 +751,22 @@ pub fn case_strategy() -> impl Strategy<Value = MirrorCase> {
         vec(step_strategy(), 0..10),
         vec(prop_oneof![4 => 97..123u8, 1 => Just(b'\n'), 1 => any::<u8>()], 0..16),
         drive_strategy(),
+        any::<bool>(),
     )
-        .prop_map(|(script, data, drive)| MirrorCase { script, data, drive })
+        .prop_map(|(script, data, drive, partial)| MirrorCase { script, data, drive, partial })
 }
 
 // ------------------------------------------------------------------ wiring sweep
 
 /// One entry point configured at a time; calling the upstream method must reach exactly it.
-pub fn wiring_sweep() -> Vec<(&'static str, Result<(), String>)> {
+pub fn wiring_sweep(partial: bool) -> Vec<(&'static str, Result<(), String>)> {
+    // every probe builds its mock through `mk`: strict, or partial (same expectations: the mirrors have no unmock function)
+    let mk_partial = partial;
+    macro_rules! mk {
+        ($c:expr $(,)?) => {
+            if mk_partial { Unimock::new_partial($c) } else { Unimock::new($c) }
+        };
+    }
     use std::task::{Context, Poll};
     let mut out: Vec<(&'static str, Result<(), String>)> = vec![];
     let mut probe = |name: &'static str, f: &mut dyn FnMut() -> Result<(), String>| {
@@ -766,54 +782,54 @@ pub fn wiring_sweep() -> Vec<(&'static str, Result<(), String>)> {
     }
     // embedded-hal digital: same-signature neighbours
     probe("InputPin::is_high", &mut || {
-        let mut u = Unimock::new(hal::digital::InputPinMock::is_high.next_call(&all()).returns(Ok(true)));
+        let mut u = mk!(hal::digital::InputPinMock::is_high.next_call(&all()).returns(Ok(true)));
         eq(InputPin::is_high(&mut u).ok(), Some(true))
     });
     probe("InputPin::is_low", &mut || {
-        let mut u = Unimock::new(hal::digital::InputPinMock::is_low.next_call(&all()).returns(Ok(true)));
+        let mut u = mk!(hal::digital::InputPinMock::is_low.next_call(&all()).returns(Ok(true)));
         eq(InputPin::is_low(&mut u).ok(), Some(true))
     });
     probe("OutputPin::set_low", &mut || {
-        let mut u = Unimock::new(hal::digital::OutputPinMock::set_low.next_call(&all()).returns(Ok(())));
+        let mut u = mk!(hal::digital::OutputPinMock::set_low.next_call(&all()).returns(Ok(())));
         eq(OutputPin::set_low(&mut u).is_ok(), true)
     });
     probe("OutputPin::set_high", &mut || {
-        let mut u = Unimock::new(hal::digital::OutputPinMock::set_high.next_call(&all()).returns(Ok(())));
+        let mut u = mk!(hal::digital::OutputPinMock::set_high.next_call(&all()).returns(Ok(())));
         eq(OutputPin::set_high(&mut u).is_ok(), true)
     });
     probe("OutputPin::set_state(mocked directly)", &mut || {
-        let mut u = Unimock::new(hal::digital::OutputPinMock::set_state.next_call(&all()).returns(Ok(())));
+        let mut u = mk!(hal::digital::OutputPinMock::set_state.next_call(&all()).returns(Ok(())));
         eq(OutputPin::set_state(&mut u, PinState::High).is_ok(), true)
     });
     probe("StatefulOutputPin::is_set_high", &mut || {
-        let mut u = Unimock::new(hal::digital::StatefulOutputPinMock::is_set_high.next_call(&all()).returns(Ok(true)));
+        let mut u = mk!(hal::digital::StatefulOutputPinMock::is_set_high.next_call(&all()).returns(Ok(true)));
         eq(StatefulOutputPin::is_set_high(&mut u).ok(), Some(true))
     });
     probe("StatefulOutputPin::is_set_low", &mut || {
-        let mut u = Unimock::new(hal::digital::StatefulOutputPinMock::is_set_low.next_call(&all()).returns(Ok(true)));
+        let mut u = mk!(hal::digital::StatefulOutputPinMock::is_set_low.next_call(&all()).returns(Ok(true)));
         eq(StatefulOutputPin::is_set_low(&mut u).ok(), Some(true))
     });
     probe("StatefulOutputPin::toggle(mocked directly)", &mut || {
-        let mut u = Unimock::new(hal::digital::StatefulOutputPinMock::toggle.next_call(&all()).returns(Ok(())));
+        let mut u = mk!(hal::digital::StatefulOutputPinMock::toggle.next_call(&all()).returns(Ok(())));
         eq(StatefulOutputPin::toggle(&mut u).is_ok(), true)
     });
     probe("digital::Error::kind", &mut || {
-        let u = Unimock::new(hal::digital::ErrorMock::kind.next_call(&all()).returns(embedded_hal::digital::ErrorKind::Other));
+        let u = mk!(hal::digital::ErrorMock::kind.next_call(&all()).returns(embedded_hal::digital::ErrorKind::Other));
         eq(format!("{:?}", embedded_hal::digital::Error::kind(&u)), "Other".to_string())
     });
     probe("DelayNs::delay_us(mocked directly)", &mut || {
-        let mut u = Unimock::new(hal::delay::DelayNsMock::delay_us.next_call(&|m| m.func(|us: &u32, _| *us == 77)).returns(()));
+        let mut u = mk!(hal::delay::DelayNsMock::delay_us.next_call(&|m| m.func(|us: &u32, _| *us == 77)).returns(()));
         DelayNs::delay_us(&mut u, 77);
         Ok(())
     });
     probe("DelayNs::delay_ms(mocked directly)", &mut || {
-        let mut u = Unimock::new(hal::delay::DelayNsMock::delay_ms.next_call(&|m| m.func(|ms: &u32, _| *ms == 78)).returns(()));
+        let mut u = mk!(hal::delay::DelayNsMock::delay_ms.next_call(&|m| m.func(|ms: &u32, _| *ms == 78)).returns(()));
         DelayNs::delay_ms(&mut u, 78);
         Ok(())
     });
     // spi bus: five required methods
     probe("SpiBus::read", &mut || {
-        let mut u = Unimock::new(hal::spi::SpiBusMock::read.with_types::<u8>().next_call(&all()).answers(&|_, w| {
+        let mut u = mk!(hal::spi::SpiBusMock::read.with_types::<u8>().next_call(&all()).answers(&|_, w| {
             w[0] = 11;
             Ok(())
         }));
@@ -822,11 +838,11 @@ pub fn wiring_sweep() -> Vec<(&'static str, Result<(), String>)> {
         eq(b[0], 11)
     });
     probe("SpiBus::write", &mut || {
-        let mut u = Unimock::new(hal::spi::SpiBusMock::write.with_types::<u8>().next_call(&|m| m.func(|w: &&[u8], _| *w == [5u8])).returns(Ok(())));
+        let mut u = mk!(hal::spi::SpiBusMock::write.with_types::<u8>().next_call(&|m| m.func(|w: &&[u8], _| *w == [5u8])).returns(Ok(())));
         eq(embedded_hal::spi::SpiBus::write(&mut u, &[5u8]).is_ok(), true)
     });
     probe("SpiBus::transfer", &mut || {
-        let mut u = Unimock::new(hal::spi::SpiBusMock::transfer.with_types::<u8>().next_call(&all()).answers(&|_, r, w| {
+        let mut u = mk!(hal::spi::SpiBusMock::transfer.with_types::<u8>().next_call(&all()).answers(&|_, r, w| {
             r[0] = w[0] + 1;
             Ok(())
         }));
@@ -835,7 +851,7 @@ pub fn wiring_sweep() -> Vec<(&'static str, Result<(), String>)> {
         eq(b[0], 9)
     });
     probe("SpiBus::transfer_in_place", &mut || {
-        let mut u = Unimock::new(hal::spi::SpiBusMock::transfer_in_place.with_types::<u8>().next_call(&all()).answers(&|_, w| {
+        let mut u = mk!(hal::spi::SpiBusMock::transfer_in_place.with_types::<u8>().next_call(&all()).answers(&|_, w| {
             w[0] = 21;
             Ok(())
         }));
@@ -844,16 +860,16 @@ pub fn wiring_sweep() -> Vec<(&'static str, Result<(), String>)> {
         eq(b[0], 21)
     });
     probe("SpiBus::flush", &mut || {
-        let mut u = Unimock::new(hal::spi::SpiBusMock::flush.with_types::<u8>().next_call(&all()).returns(Ok(())));
+        let mut u = mk!(hal::spi::SpiBusMock::flush.with_types::<u8>().next_call(&all()).returns(Ok(())));
         eq(embedded_hal::spi::SpiBus::<u8>::flush(&mut u).is_ok(), true)
     });
     // std io: methods mocked directly must pre-empt the default body
     probe("Write::write_all(mocked directly)", &mut || {
-        let mut u = Unimock::new(WriteMock::write_all.next_call(&|m| m.func(|b: &&[u8], _| *b == b"xyz")).returns(Ok(())));
+        let mut u = mk!(WriteMock::write_all.next_call(&|m| m.func(|b: &&[u8], _| *b == b"xyz")).returns(Ok(())));
         eq(Write::write_all(&mut u, b"xyz").is_ok(), true)
     });
     probe("Read::read_to_end(mocked directly)", &mut || {
-        let mut u = Unimock::new(ReadMock::read_to_end.next_call(&all()).answers(&|_, v| {
+        let mut u = mk!(ReadMock::read_to_end.next_call(&all()).answers(&|_, v| {
             v.push(42);
             Ok(1)
         }));
@@ -862,19 +878,19 @@ pub fn wiring_sweep() -> Vec<(&'static str, Result<(), String>)> {
         eq((r, v), (Some(1), vec![42]))
     });
     probe("Seek::stream_position(mocked directly)", &mut || {
-        let mut u = Unimock::new(SeekMock::stream_position.next_call(&all()).returns(Ok(99)));
+        let mut u = mk!(SeekMock::stream_position.next_call(&all()).returns(Ok(99)));
         eq(Seek::stream_position(&mut u).ok(), Some(99))
     });
     probe("Debug::fmt", &mut || {
-        let u = Unimock::new(DebugMock::fmt.next_call(&all()).answers(&|_, f| f.write_str("dbg!")));
+        let u = mk!(DebugMock::fmt.next_call(&all()).answers(&|_, f| f.write_str("dbg!")));
         eq(format!("{u:?}"), "dbg!".to_string())
     });
     probe("Display::fmt", &mut || {
-        let u = Unimock::new(DisplayMock::fmt.next_call(&all()).answers(&|_, f| f.write_str("dsp!")));
+        let u = mk!(DisplayMock::fmt.next_call(&all()).answers(&|_, f| f.write_str("dsp!")));
         eq(format!("{u}"), "dsp!".to_string())
     });
     probe("Error::source(default)", &mut || {
-        let u = Unimock::new(());
+        let u = mk!(());
         eq(std::error::Error::source(&u).is_none(), true)
     });
     // tokio / futures async io: poll_* entry points and the vectored defaults
@@ -889,27 +905,27 @@ pub fn wiring_sweep() -> Vec<(&'static str, Result<(), String>)> {
         use unimock::mock::tokio_1::io as t;
         let w2 = waker.clone();
         probe("tokio AsyncWrite::poll_write", &mut || {
-            let mut u = Unimock::new(t::AsyncWriteMock::poll_write.next_call(&all()).answers(&|_, _, buf| Poll::Ready(Ok(buf.len() + 100))));
+            let mut u = mk!(t::AsyncWriteMock::poll_write.next_call(&all()).answers(&|_, _, buf| Poll::Ready(Ok(buf.len() + 100))));
             let mut cx = Context::from_waker(&w2);
             let r = tokio::io::AsyncWrite::poll_write(std::pin::Pin::new(&mut u), &mut cx, b"ab");
             eq(format!("{r:?}"), "Ready(Ok(102))".to_string())
         });
         let w2 = waker.clone();
         probe("tokio AsyncWrite::poll_flush", &mut || {
-            let mut u = Unimock::new(t::AsyncWriteMock::poll_flush.next_call(&all()).returns(Poll::Ready(Ok(()))));
+            let mut u = mk!(t::AsyncWriteMock::poll_flush.next_call(&all()).returns(Poll::Ready(Ok(()))));
             let mut cx = Context::from_waker(&w2);
             eq(format!("{:?}", tokio::io::AsyncWrite::poll_flush(std::pin::Pin::new(&mut u), &mut cx)), "Ready(Ok(()))".to_string())
         });
         let w2 = waker.clone();
         probe("tokio AsyncWrite::poll_shutdown", &mut || {
-            let mut u = Unimock::new(t::AsyncWriteMock::poll_shutdown.next_call(&all()).returns(Poll::Pending));
+            let mut u = mk!(t::AsyncWriteMock::poll_shutdown.next_call(&all()).returns(Poll::Pending));
             let mut cx = Context::from_waker(&w2);
             eq(format!("{:?}", tokio::io::AsyncWrite::poll_shutdown(std::pin::Pin::new(&mut u), &mut cx)), "Pending".to_string())
         });
         let w2 = waker.clone();
         probe("tokio AsyncWrite::poll_write_vectored(default)", &mut || {
             // upstream default: the first non-empty buffer goes to poll_write
-            let mut u = Unimock::new(
+            let mut u = mk!(
                 t::AsyncWriteMock::poll_write.next_call(&|m| m.func(|(_, buf), _| *buf == b"cd")).returns(Poll::Ready(Ok(2))),
             );
             let mut cx = Context::from_waker(&w2);
@@ -918,12 +934,12 @@ pub fn wiring_sweep() -> Vec<(&'static str, Result<(), String>)> {
             eq(format!("{r:?}"), "Ready(Ok(2))".to_string())
         });
         probe("tokio AsyncWrite::is_write_vectored(default)", &mut || {
-            let u = Unimock::new(());
+            let u = mk!(());
             eq(tokio::io::AsyncWrite::is_write_vectored(&u), false)
         });
         let w2 = waker.clone();
         probe("tokio AsyncRead::poll_read", &mut || {
-            let mut u = Unimock::new(t::AsyncReadMock::poll_read.next_call(&all()).answers(&|_, _, buf| {
+            let mut u = mk!(t::AsyncReadMock::poll_read.next_call(&all()).answers(&|_, _, buf| {
                 buf.put_slice(b"hi");
                 Poll::Ready(Ok(()))
             }));
@@ -935,7 +951,7 @@ pub fn wiring_sweep() -> Vec<(&'static str, Result<(), String>)> {
         });
         let w2 = waker.clone();
         probe("tokio AsyncSeek::start_seek/poll_complete", &mut || {
-            let mut u = Unimock::new((
+            let mut u = mk!((
                 t::AsyncSeekMock::start_seek.next_call(&|m| m.func(|p: &tokio::io::SeekFrom, _| *p == tokio::io::SeekFrom::Start(5))).returns(Ok(())),
                 t::AsyncSeekMock::poll_complete.next_call(&all()).returns(Poll::Ready(Ok(5))),
             ));
@@ -949,7 +965,7 @@ pub fn wiring_sweep() -> Vec<(&'static str, Result<(), String>)> {
         use unimock::mock::futures_0_3::io as f;
         let w2 = waker.clone();
         probe("futures AsyncRead::poll_read_vectored(default)", &mut || {
-            let mut u = Unimock::new(f::AsyncReadMock::poll_read.next_call(&|m| m.func(|(_, buf), _| buf.len() == 3)).answers(&|_, _, buf| {
+            let mut u = mk!(f::AsyncReadMock::poll_read.next_call(&|m| m.func(|(_, buf), _| buf.len() == 3)).answers(&|_, _, buf| {
                 buf[0] = 7;
                 Poll::Ready(Ok(1))
             }));
@@ -963,19 +979,19 @@ pub fn wiring_sweep() -> Vec<(&'static str, Result<(), String>)> {
         });
         let w2 = waker.clone();
         probe("futures AsyncWrite::poll_close", &mut || {
-            let mut u = Unimock::new(f::AsyncWriteMock::poll_close.next_call(&all()).returns(Poll::Ready(Ok(()))));
+            let mut u = mk!(f::AsyncWriteMock::poll_close.next_call(&all()).returns(Poll::Ready(Ok(()))));
             let mut cx = Context::from_waker(&w2);
             eq(format!("{:?}", futures_io::AsyncWrite::poll_close(std::pin::Pin::new(&mut u), &mut cx)), "Ready(Ok(()))".to_string())
         });
         let w2 = waker.clone();
         probe("futures AsyncWrite::poll_flush", &mut || {
-            let mut u = Unimock::new(f::AsyncWriteMock::poll_flush.next_call(&all()).returns(Poll::Pending));
+            let mut u = mk!(f::AsyncWriteMock::poll_flush.next_call(&all()).returns(Poll::Pending));
             let mut cx = Context::from_waker(&w2);
             eq(format!("{:?}", futures_io::AsyncWrite::poll_flush(std::pin::Pin::new(&mut u), &mut cx)), "Pending".to_string())
         });
         let w2 = waker.clone();
         probe("futures AsyncSeek::poll_seek", &mut || {
-            let mut u = Unimock::new(f::AsyncSeekMock::poll_seek.next_call(&all()).returns(Poll::Ready(Ok(12))));
+            let mut u = mk!(f::AsyncSeekMock::poll_seek.next_call(&all()).returns(Poll::Ready(Ok(12))));
             let mut cx = Context::from_waker(&w2);
             eq(format!("{:?}", futures_io::AsyncSeek::poll_seek(std::pin::Pin::new(&mut u), &mut cx, futures_io::SeekFrom::End(-1))), "Ready(Ok(12))".to_string())
         });
@@ -995,15 +1011,17 @@ pub fn run(ctx: &Ctx) -> Verdict {
     v.subs.push(super::replay_corpus(ctx));
     let n = ctx.tier.pick(200_000, 3_000_000);
     v.subs.push(vcore::run_proptest(ctx, "scripts", n, case_strategy(), check));
-    let sweep = wiring_sweep();
     let mut rep = vcore::SubReport::new("wiring");
     rep.exhaustive = true;
-    for (name, r) in sweep {
-        match r {
-            Ok(()) => rep.record(&name, &CaseInfo::new(true).class("entry-point-wired")),
-            Err(e) => {
-                rep.fail(&name, format!("{name}: {e}"));
-                break;
+    'sweep: for partial in [false, true] {
+        for (name, r) in wiring_sweep(partial) {
+            let key = (name, partial);
+            match r {
+                Ok(()) => rep.record(&key, &CaseInfo::new(true).class("entry-point-wired").class_if(partial, "partial-mock")),
+                Err(e) => {
+                    rep.fail(&key, format!("{name} (partial = {partial}): {e}"));
+                    break 'sweep;
+                }
             }
         }
     }
@@ -1013,10 +1031,14 @@ pub fn run(ctx: &Ctx) -> Verdict {
 
 pub fn replay(sub: &str, case: Value) -> Result<(), String> {
     if sub == "wiring" {
-        let name = case.as_str().unwrap_or("");
-        for (n, r) in wiring_sweep() {
+        // old replay files hold the bare name (strict mock), newer ones (name, partial)
+        let (name, partial) = match &case {
+            Value::Array(a) => (a.first().and_then(|v| v.as_str()).unwrap_or(""), a.get(1).and_then(|v| v.as_bool()).unwrap_or(false)),
+            v => (v.as_str().unwrap_or(""), false),
+        };
+        for (n, r) in wiring_sweep(partial) {
             if n == name {
-                return r.map_err(|e| format!("{n}: {e}"));
+                return r.map_err(|e| format!("{n} (partial = {partial}): {e}"));
             }
         }
         return Err("HARNESS: wiring probe not found".into());
